@@ -45,7 +45,7 @@ func runC03(e *core.Env) {
 			text = r.Pick("", "\n", "  \n\t\n", "\r\n\r\n", "    ", "\n\n\n")
 			d = &gen.Out{Doc: &ref.Doc{}, Feat: map[string]bool{}}
 		default:
-			d = gen.Document(r, gen.Opts{MaxRecs: 7, MinRecs: 1, MaxEntries: 4, Near: &today, NearSpread: r.PickInt(1, 2, 4), Sorted: r.Chance(2, 3), Hostile: true, OpenRanges: 1, Tags: 1,
+			d = gen.Document(r, gen.Opts{MaxRecs: r.PickInt(7, 7, 7, 14), MinRecs: 1, MaxEntries: 4, Near: &today, NearSpread: r.PickInt(1, 2, 4), Sorted: r.Chance(2, 3), Hostile: true, OpenRanges: 1, Tags: 1,
 				Unicode: r.Chance(1, 3), LookAlikes: true, TrailingBlank: true, MaxHours: 12})
 			text = d.Text
 			switch r.Intn(5) {
@@ -116,6 +116,11 @@ const (
 func c03Match(o, n ref.SrcLine, cmd MCmd) lineKindC03 {
 	if o == n {
 		return sameLine
+	}
+	// A final line that ends in a stray carriage return (content, no line ending) and gains "\n" afterwards reads as
+	// text + CRLF to a line splitter. Byte-wise nothing of the original changed: compare with the CR kept in the text.
+	if o.Ending == "" && strings.HasSuffix(o.Text, "\r") && n.Ending == "\r\n" && !strings.HasSuffix(n.Text, "\r") {
+		n = ref.SrcLine{Text: n.Text + "\r", Ending: "\n"}
 	}
 	if o.Text == n.Text && o.Ending == "" && n.Ending != "" {
 		return eolGain
